@@ -79,6 +79,7 @@ def documents(tier):
     docs = [
         ("multi_file", "thrift", [stress["multi_file"]], "multi_main.thrift"),
         ("case_collisions", "thrift", [stress["case_collisions"]], None),
+        ("shared_ns", "thrift", [stress["shared_ns"]], "shared_main.thrift"),
         ("sem_service", "thrift", [sem["sem_service"]], None),
         ("proto_nested", "proto", [corpus.RawDoc("proto_nested", {"proto_nested.proto": PROTO_NESTED}, mode="proto")], None),
     ]
